@@ -137,7 +137,13 @@ def run(ctx, res):
                 res.disagreements.append({'case': case, 'model': sx.dumps(mo)[:500], 'impl': sx.dumps(impl)[:500], 'relation': 'Readers.read_request = decorated read_*'})
         if res.evaluations % 1500 == 0:
             res.sample({'method': meth, 'class': klass, 'tokens': toks[:12], 'result': sx.dumps(impl)[:160]})
-    servers(ctx, res)
+    try:
+        servers(ctx, res)
+    except Exception as e:      # an exception escaping on_received_request is itself a violation of the property
+        import traceback
+        res.oracle_violations.append({'case': {'server': 'inert'}, 'detail': 'an exception escaped Server.on_received_request: %r' % (e,),
+                                      'key': {'kind': 'escaped_dispatcher'}})
+    pipelined(ctx, res)
     res.traces = res.evaluations
 
 
@@ -215,6 +221,26 @@ def servers(ctx, res):
     if not ok:
         res.oracle_violations.append({'case': {'server': 'data', 'line': '5|SUB|X|item', 'handler': 'default'},
                                       'detail': 'default handling: lines %r then %r' % (msgs, later), 'key': {'kind': 'server_malformed', 'method': 'SUB'}})
+
+
+def pipelined(ctx, res):
+    """malformed and well-formed requests pipelined through the real reader loop, pool and writer under the scheduler
+    (shared machinery of the connection-level properties): rejected lines reach neither adapter nor wire, service continues"""
+    import random
+    import shellprops
+    import shellrun
+    n = 400 if ctx.tier == 'quick' else 8000
+    digs = shellprops.run_many('C09', ctx.rng.getrandbits(40), n)
+    for d in digs:
+        res.evaluations += 1
+        res.count('pipelined:' + d['kind'])
+        for v in d['viol']:
+            res.oracle_violations.append(v)
+    for x in shellprops.compare_digests(ctx, digs):
+        if x.get('unmodelled'):
+            res.unmodelled += 1
+        else:
+            res.disagreements.append(x)
 
 
 def search(ctx, res):
